@@ -613,6 +613,7 @@ def _constructed(pause):
 for _pid in ("C16", "C18", "C06", "C20"):
     SPECS[_pid]["parts"].append(_constructed(True))
 SPECS["C16"]["parts"].append(_constructed(False))
+SPECS["C14"]["parts"].append(_constructed(False))
 
 ROUTER_SRC = ["app/router/" + f for f in ("router.go", "cache.go", "context.go", "server_tcp.go", "server_utils.go", "ecs.go", "router_middleware.go")]
 
@@ -647,6 +648,11 @@ for _pid in ("C15", "C20"):
     SPECS[_pid]["parts"].append(dict(name="limiter-race", pkg="internal/limiter", run="TestVerifC15Race", race=True, shards=1, gomaxprocs=4, engines=("choice", "report"),
                                      files={"harness/limiter/zz_verif_c15race_test.go": "internal/limiter/zz_verif_c15race_test.go"},
                                      params={"quick": {"ROUNDS": 2000}, "thorough": {"ROUNDS": 50000}}))
+
+# "a response within the request deadline, from the address the query went to" leans on two things other properties explore: the upstream
+# transports honouring the exchange deadline (C14's fault enumeration) and the UDP listener's reply source (C15's multi-route part)
+SPECS["C03"]["parts"].append([dict(p) for p in SPECS["C14"]["parts"] if p["name"] == "stream"][0])
+SPECS["C03"]["parts"].append([dict(p) for p in SPECS["C15"]["parts"] if p["name"] == "udp-multi-route"][0])
 
 # --------------------------------------------------------------------------------------------
 # Properties not (yet) claimed. Kept current: every property without a SPECS entry must be here.
